@@ -11,14 +11,8 @@ SEQUENTIAL_PARTS = []
 
 
 def concurrent_part(ctx):
-    from .. import overlay
-    # the lock programs used by the OrefaFS refutations are those of the code
-    mm = overlay.stream(ctx, "lockprog", "lockprog", "lockprog")
-    if mm is None:
+    if not conccheck.lockprog(ctx):
         return
-    for (i, c, m, o) in mm[:2]:
-        ctx.violation("lockprog", "the acquire/release sequence of a call run alone differs from its entry in the lock-program table of Conc/LockProg.v (%d entries differ): the C07_refuted_orefa_* witnesses no longer speak about this code" % len(mm),
-                      {"conc_stream": {"name": "lockprog", "harness": "lockprog", "driver": "lockprog", "overlay": True}, "engine": "conc-lockprog", "case": c, "model": m, "observed": o})
     conccheck.run(ctx, KINDS)
 
 
